@@ -582,6 +582,26 @@ class AModel(Model):
             if self.exc and len(args) == 1:
                 outs.append(R(st.fork(), None, 'StopIteration', line))
             return outs
+        # ---- a helper function imported from a sibling module of the package (self-contained: it refers to nothing but its parameters)
+        if f[0] == 'lib' and any(a == SELF for a in args):
+            parts = f[1].lstrip('.').split('.')
+            if len(parts) >= 2 and parts[-2] in self.repo.modules and parts[-2] != self.module.rel.split('/')[-1][:-3]:
+                om = self.repo.modules[parts[-2]]
+                ofi = om.functions.get(parts[-1])
+                if ofi is not None:
+                    import builtins as _b
+                    bound = set(x.arg for x in ofi.node.args.args + ofi.node.args.kwonlyargs)
+                    if ofi.node.args.vararg:
+                        bound.add(ofi.node.args.vararg.arg)
+                    if ofi.node.args.kwarg:
+                        bound.add(ofi.node.args.kwarg.arg)
+                    for n_ in ast.walk(ofi.node):
+                        if isinstance(n_, ast.Name) and isinstance(n_.ctx, ast.Store):
+                            bound.add(n_.id)
+                    free = [n_.id for n_ in ast.walk(ofi.node) if isinstance(n_, ast.Name) and isinstance(n_.ctx, ast.Load)
+                            and n_.id not in bound and not hasattr(_b, n_.id)]
+                    if not free:
+                        return self.engine.inline(ofi.node, parts[-1], {}, args, kws, st, node)
         # ---- module-level helper functions of _archives.py taking self
         if f[0] == 'lib' and full.startswith('func:'):
             fi = self.module.functions.get(full[5:])
